@@ -216,6 +216,32 @@ def r2_scanner(prog, res):
                     "swallows text up to the next apostrophe (instances vanish from the index), and every further \"/*\" recurses" % what)
 
 
+def r6_ids_decimal(prog, res):
+    """Instance names are decimal (`#0010` is instance 10).  The eager reader extracts them with `in >> int` (decimal unless the
+    stream's basefield is changed); every C library conversion of the lazy loader must therefore use base 10 - base 0 would read a
+    zero-padded name as octal - and nobody may switch a reader stream to another base."""
+    n = 0
+    for f in prog.all_functions():
+        if f.component not in ("cllazyfile", "clstepcore", "cleditor"):
+            continue
+        for c in f.calls():
+            fn_ = c.get("fn") or ""
+            if fn_ in ("strtol", "strtoll", "strtoul", "strtoull", "_strtoui64", "strtoimax", "strtoumax"):
+                a = call_args(c)
+                n += 1
+                b = strip(a[2]).get("val") if len(a) > 2 and strip(a[2]) is not None else None
+                ok = b == 10
+                res.add("R6.ids_decimal", "R6|%s|%s|%s-base" % (f.relfile(), f.name, fn_), f.where(c), ok,
+                        "%s( .., 10 ): numbers are read as decimal" % fn_ if ok else
+                        "%s is called with base %s: a zero-padded instance name such as #0010 is read as octal (8) by the lazy loader, while the "
+                        "eager reader reads 10 - index, reference tables and loaded instances no longer correspond" % (fn_, b))
+            elif fn_.split("::")[-1] in ("setf", "unsetf", "flags") and any(y["k"] == "Ref" and (y.get("n") or "") in ("basefield", "hex", "oct") for a in call_args(c) for y in walk(a)):
+                n += 1
+                res.add("R6.ids_decimal", "R6|%s|%s|basefield" % (f.relfile(), f.name), f.where(c), False,
+                        "%s changes the number base of a stream in the reader libraries" % f.name)
+    res.floor("R6.ids_decimal", "C library integer conversions in the reader libraries", n, 1)
+
+
 def r3_cache(prog, res):
     f = prog.one("lazyInstMgr::loadInstance")
     if f is None:
@@ -454,4 +480,5 @@ def run(prog, res, tier):
     r2_scanner(prog, res)
     r3_cache(prog, res)
     r4_closure(prog, res)
+    r6_ids_decimal(prog, res)
     r5_comments(prog, res)
